@@ -780,7 +780,19 @@ impl WideProg {
             let b = (i + 1 + (u.b_off % 4) as i64) % n;
             let k = 1 + (u.k % 3) as i64;
             let c3 = (i + 2 + ((u.a_off + u.b_off) % 5) as i64) % n;
-            match u.f % 12 {
+            match u.f % 16 {
+                // 12..15: negated terms; with `clear == false` these become in-place subtractions
+                12 => w.mul_signed(a, b, n + i, t0, t1, true),
+                13 => {
+                    w.copy_signed(a, n + i, t1, true);
+                    w.copy_signed(b, n + i, t1, true);
+                }
+                14 => {
+                    // a*b - b*c
+                    w.mul(a, b, n + i, t0, t1);
+                    w.mul_signed(b, c3, n + i, t0, t1, true);
+                }
+                15 => w.mul_signed(a, a, n + i, t0, t1, true),
                 9 => w.mul3(a, b, c3, n + i, t0, t1, t2),
                 10 => {
                     // a*a*b + k
@@ -852,7 +864,7 @@ impl WideProg {
 pub fn wide_prog(big: bool) -> impl Strategy<Value = WideProg> {
     // copies and sums are cheap in canonical steps; products are rarer
     const F_TABLE: [u8; 20] = [0, 0, 0, 0, 0, 0, 3, 3, 3, 4, 4, 6, 6, 1, 2, 5, 7, 8, 9, 10];
-    let upd = (prop_oneof![3 => Just(0u8), 2 => 0u8..3], 0u8..4, prop_oneof![9 => (0usize..20).prop_map(|i| F_TABLE[i]), 1 => Just(11u8)], 0u8..3, prop_oneof![3 => Just(true), 1 => Just(false)]).prop_map(|(a_off, b_off, f, k, clear)| Upd { a_off, b_off, f, k, clear });
+    let upd = (prop_oneof![3 => Just(0u8), 2 => 0u8..3], 0u8..4, prop_oneof![16 => (0usize..20).prop_map(|i| F_TABLE[i]), 2 => Just(11u8), 3 => 12u8..16], 0u8..3, prop_oneof![2 => Just(true), 1 => Just(false)]).prop_map(|(a_off, b_off, f, k, clear)| Upd { a_off, b_off, f, k, clear });
     let bigs = if big { (0u8..20, 0u8..3, 0u8..6).prop_map(Some).boxed() } else { Just(None).boxed() };
     (prop_oneof![1 => 6u8..12, 1 => 12u8..18, 2 => 18u8..28], vec((0u8..10, 0u8..4), 20), any::<bool>(), 0u8..3, prop_oneof![9 => Just(true), 1 => Just(false)], 0u8..20, (vec(upd, 1..21), any::<u8>()), proptest::option::weighted(0.3, 0u8..20), bigs)
         .prop_map(|(n, init, cnt_in, cnt_k, looped, start, (upd, nupd_sel), out_in_loop, big)| WideProg { n, init, cnt_in, cnt_k, looped, start, upd, nupd_sel, out_in_loop, big })
